@@ -511,6 +511,9 @@ func upperBound(fn *ssa.Function, at ssa.Instruction, v ssa.Value, depth int) (i
 			}
 		}
 	}
+	if ub, ok := upperBoundByHelper(fn, at, v, depth); ok {
+		return ub, true
+	}
 	if par, ok := v.(*ssa.Parameter); ok && par.Parent() != nil {
 		pf := par.Parent()
 		idx := -1
@@ -750,10 +753,16 @@ func validatedByHelper(fn *ssa.Function, at ssa.Instruction, v ssa.Value, nd nee
 			return
 		}
 		for ai, a := range call.Call.Args {
-			if ai >= len(g.Params) || !(a == v || relatedTo(a, v, 0)) {
+			if ai >= len(g.Params) {
 				continue
 			}
-			if !helperValidates(g, g.Params[ai], nd, depth) {
+			var rep ssa.Value
+			if a == v || relatedTo(a, v, 0) {
+				rep = g.Params[ai]
+			} else if rep = fieldOfParamIn(g, g.Params[ai], a, v); rep == nil {
+				continue
+			}
+			if !helperValidates(g, rep, nd, depth) {
 				continue
 			}
 			for _, b := range fn.Blocks {
@@ -778,7 +787,7 @@ func validatedByHelper(fn *ssa.Function, at ssa.Instruction, v ssa.Value, nd nee
 	return found, found != nil
 }
 
-func helperValidates(g *ssa.Function, par *ssa.Parameter, nd need, depth int) bool {
+func helperValidates(g *ssa.Function, par ssa.Value, nd need, depth int) bool {
 	n, okAll := 0, true
 	allInstrs(g, func(in ssa.Instruction) {
 		ret, ok := in.(*ssa.Return)
@@ -1066,4 +1075,147 @@ func edgeDominatesNoFatal(from, to, target *ssa.BasicBlock) bool {
 	}
 	r := reachable(fn.Blocks[0], cut, nil)
 	return !r[target]
+}
+
+// fieldOfParamIn: the caller passes the struct `a` to g's parameter par, and v is a field (path) of
+// that same struct in the caller; returns a value inside g that reads the same field (path) of par,
+// or nil when g never reads it.
+func fieldOfParamIn(g *ssa.Function, par *ssa.Parameter, a, v ssa.Value) ssa.Value {
+	ra, na := fieldPath(a)
+	rv, nv := fieldPath(v)
+	if strip(ra) != strip(rv) || len(nv) <= len(na) {
+		return nil
+	}
+	for i := range na {
+		if na[i] != nv[i] {
+			return nil
+		}
+	}
+	suffix := nv[len(na):]
+	var rep ssa.Value
+	allInstrs(g, func(in ssa.Instruction) {
+		if rep != nil {
+			return
+		}
+		val, ok := in.(ssa.Value)
+		if !ok {
+			return
+		}
+		switch in.(type) {
+		case *ssa.UnOp, *ssa.Field:
+		default:
+			return
+		}
+		r, n := fieldPath(val)
+		if strip(r) != ssa.Value(par) || len(n) != len(suffix) {
+			return
+		}
+		for i := range n {
+			if n[i] != suffix[i] {
+				return
+			}
+		}
+		rep = val
+	})
+	return rep
+}
+
+// upperBoundByHelper: fn calls a validator g(…, v, …) that returns an error, `at` is only reached
+// on the no-error edge, and every return of g that may carry a nil error is bounded for the
+// corresponding parameter; returns the largest of those bounds.
+func upperBoundByHelper(fn *ssa.Function, at ssa.Instruction, v ssa.Value, depth int) (int64, bool) {
+	if depth > 2 {
+		return 0, false
+	}
+	var best int64
+	found := false
+	allInstrs(fn, func(in ssa.Instruction) {
+		if found {
+			return
+		}
+		call, ok := in.(*ssa.Call)
+		if !ok {
+			return
+		}
+		g := call.Call.StaticCallee()
+		if g == nil || g.Blocks == nil || !ModuleFunc(g) || g == fn {
+			return
+		}
+		res := g.Signature.Results()
+		if res.Len() == 0 || !types.Identical(res.At(res.Len()-1).Type(), errorType) {
+			return
+		}
+		var errV ssa.Value
+		if res.Len() == 1 {
+			errV = call
+		} else {
+			for _, r := range *call.Referrers() {
+				if ex, ok := r.(*ssa.Extract); ok && ex.Index == res.Len()-1 {
+					errV = ex
+				}
+			}
+		}
+		if errV == nil {
+			return
+		}
+		gated := false
+		for _, b := range fn.Blocks {
+			ifi, ok := b.Instrs[len(b.Instrs)-1].(*ssa.If)
+			if !ok {
+				continue
+			}
+			e, errEdge, ok := errTest(ifi.Cond)
+			if !ok || e != errV {
+				continue
+			}
+			si := 1
+			if !errEdge {
+				si = 0
+			}
+			if edgeDominatesNoFatal(b, b.Succs[si], at.Block()) {
+				gated = true
+			}
+		}
+		if !gated {
+			return
+		}
+		for ai, a := range call.Call.Args {
+			if ai >= len(g.Params) {
+				continue
+			}
+			var rep ssa.Value
+			if a == v || sameLoc(a, v) {
+				rep = g.Params[ai]
+			} else if rep = fieldOfParamIn(g, g.Params[ai], a, v); rep == nil {
+				continue
+			}
+			n, okAll, mx := 0, true, int64(0)
+			allInstrs(g, func(in2 ssa.Instruction) {
+				ret, ok := in2.(*ssa.Return)
+				if !ok || len(ret.Results) == 0 {
+					return
+				}
+				if isErrorCtor(ret.Results[len(ret.Results)-1]) {
+					return
+				}
+				if _, isMI := ret.Results[len(ret.Results)-1].(*ssa.MakeInterface); isMI {
+					return
+				}
+				n++
+				ub, ok := upperBound(g, ret, rep, depth+1)
+				if !ok {
+					okAll = false
+					return
+				}
+				if ub > mx {
+					mx = ub
+				}
+			})
+			if okAll && n > 0 {
+				best, found = mx, true
+				return
+			}
+		}
+	})
+	return best, found
 }
